@@ -90,6 +90,95 @@ func ruleSentinel(c *core.Ctx, rule string) {
 	if n == 0 {
 		c.Note(rule + ": no slice-returning recursion in package balance (a rewrite that needs no sentinel is vacuous by design)")
 	}
+	ruleChainStopsAtFork(c, rule)
+}
+
+// ruleChainStopsAtFork (part of C03-R2): whatever its shape — recursion or a loop down the only children — a
+// function of package balance that turns a node into the list of names of a joined chain answers with the empty
+// list on every path on which it has seen a node with more than one child. A non-empty answer makes the caller
+// print one joined row and skip everything below, fork included.
+func ruleChainStopsAtFork(c *core.Ctx, rule string) {
+	treeT := c.P.LookupType(core.LibPath, "TreeNode")
+	if treeT == nil {
+		return
+	}
+	for _, fn := range c.P.Funcs {
+		if core.FnPkgPath(fn) != balancePkg || fn.Parent() != nil || len(fn.Params) != 1 || fn.Signature.Results().Len() != 1 {
+			continue
+		}
+		if _, ok := fn.Signature.Results().At(0).Type().Underlying().(*types.Slice); !ok {
+			continue
+		}
+		if pt, ok := fn.Params[0].Type().(*types.Pointer); !ok || !types.Identical(pt.Elem(), treeT) {
+			continue
+		}
+		fname := core.FuncName(fn)
+		pos := c.P.Pos(fn.Pos())
+		x := newExec(c)
+		x.Hooks.Call = func(x *absint.Exec, s *absint.State, site ssa.CallInstruction, callee *ssa.Function, fnv absint.Value, args []absint.Value) (absint.Value, bool) {
+			if callee == fn {
+				return absint.Sym{Name: "rec"}, true // the recursive form is judged by the sentinel rule above
+			}
+			return nil, false
+		}
+		x.Hooks.Decide = func(x *absint.Exec, s *absint.State, atom string, outs []string) {
+			// ord(c:1,len(children)) = "<": more than one child
+			if !strings.HasPrefix(atom, "ord(") || !strings.Contains(atom, "len(") || len(outs) == 0 {
+				return
+			}
+			parts := splitTop(strings.TrimSuffix(strings.TrimPrefix(atom, "ord("), ")"))
+			if len(parts) != 2 {
+				return
+			}
+			for i := 0; i < 2; i++ {
+				if !strings.HasPrefix(parts[i], "len(§") {
+					continue
+				}
+				loc := locOf(x, absint.Sym{Name: strings.TrimSuffix(strings.TrimPrefix(parts[i], "len(§"), ")")})
+				if !strings.HasSuffix(loc, "·Children") {
+					continue
+				}
+				o := strings.Join(x.OrdOutcomes(s, parts[i], parts[1-i]), "") // len versus the constant
+				switch {
+				case parts[1-i] == "c:1" && o == ">":
+					s.SetData("fork", "1")
+				case parts[1-i] == "c:1" && o != "" && !strings.Contains(o, "="):
+					s.SetData("ne1:"+parts[i], "1") // not one child …
+				case parts[1-i] == "c:0" && o == ">":
+					s.SetData("gt0:"+parts[i], "1") // … and not none
+				}
+				if s.Data["ne1:"+parts[i]] == "1" && s.Data["gt0:"+parts[i]] == "1" {
+					s.SetData("fork", "1")
+				}
+			}
+		}
+		terms := x.Run(x.NewState(fn, nil, nil))
+		if len(x.Problems) > 0 || x.Exhausted {
+			continue // the traversal rule reports what it cannot follow
+		}
+		var bad []string
+		forks := 0
+		for _, tm := range terms {
+			if tm.Kind != "return" || len(tm.Ret) != 1 || tm.State.Data["fork"] != "1" {
+				continue
+			}
+			forks++
+			if !isEmptySlice(x, tm.Ret[0]) {
+				bad = append(bad, fmt.Sprintf("%s: on a path that has met a node with more than one child the chain helper answers %s, not the empty list: the caller prints the partial chain as one joined row and never descends into the fork — every branch below it is missing from the collapsed report", c.P.Pos(tm.Pos), tm.Ret[0].Key()))
+			}
+		}
+		if forks == 0 {
+			continue
+		}
+		c.Universe(rule+" chain helpers", fname+" ("+pos+")")
+		bad = uniq(bad)
+		if len(bad) == 0 {
+			c.Discharge(rule, fname, "fork", pos, fmt.Sprintf("every path that meets a fork answers with the empty list (%d paths)", forks))
+		}
+		for _, m := range bad {
+			c.Violate(rule, fname, "fork", pos, m, nil)
+		}
+	}
 }
 
 func isEmptySlice(x *absint.Exec, v absint.Value) bool {
@@ -185,251 +274,302 @@ func ruleTreePrinters(c *core.Ctx, rule string) {
 			continue
 		}
 		n++
-		fname := core.FuncName(fn)
-		pos := c.P.Pos(fn.Pos())
-		c.Universe(rule+" tree printers", fname+" ("+pos+")")
-		x := newExec(c)
-		// rows printed through a row-printer interface with one implementation in the tree are followed into it
-		x.Hooks.Devirt = func(in *ssa.Function, site ssa.CallInstruction) *ssa.Function {
-			var only *ssa.Function
-			for _, cal := range calleesOf(c.P, in, site, c.P.CallGraph()) {
-				if only != nil || !c.P.InScope(cal) {
-					return nil
+		// a walker that is told by a function value what to print and whether to descend (printRows(node, level, w,
+		// label)) is judged once for each function of the package that calls it with such a function
+		roots := []*ssa.Function{fn}
+		if takesFuncs(fn) {
+			roots = nil
+			for _, g := range c.P.Funcs {
+				if g == fn || g.Parent() != nil || core.FnPkgPath(g) != balancePkg {
+					continue
 				}
-				only = cal
+				for _, b := range g.Blocks {
+					for _, in := range b.Instrs {
+						if ci, ok := in.(ssa.CallInstruction); ok && core.Callee(ci.Common()) == fn {
+							roots = append(roots, g)
+						}
+					}
+				}
 			}
-			return only
+			if len(roots) == 0 {
+				roots = []*ssa.Function{fn}
+			}
 		}
-		var bad []string
-		seenCases := map[string]bool{}
-		modeEnum := modeEnumOf(c, fn.Params[len(fn.Params)-1].Type())
-		// the loop that walks the children is the one whose body prints
-		depthOf := func(x *absint.Exec, atom string) int {
-			// how many lookups deep is the list whose length the atom tests? 1 = the child, 2 = a grandchild
-			i := strings.Index(atom, "len(§@")
-			if i < 0 {
-				i = strings.Index(atom, "len(§j@")
+		for _, root := range roots {
+			wantFrames := 1
+			if root != fn {
+				wantFrames = 2
 			}
-			if i < 0 {
-				return 0
-			}
-			rest := atom[i+len("len(§"):]
-			end := strings.IndexAny(rest, "),")
-			if end < 0 {
-				return 0
-			}
-			loc := locOf(x, absint.Sym{Name: rest[:end]})
-			if !strings.HasSuffix(loc, "·Children") {
-				return 0
-			}
-			d := strings.Count(loc, "lookup(")
-			// nested load symbols hide inner lookups: resolve one level
-			if j := strings.Index(loc, "lookup(§@"); j >= 0 {
-				inner := loc[j+len("lookup(§"):]
-				if e := strings.IndexAny(inner, ",)"); e > 0 {
-					d += strings.Count(locOf(x, absint.Sym{Name: inner[:e]}), "lookup(")
+			fname := core.FuncName(root)
+			pos := c.P.Pos(root.Pos())
+			c.Universe(rule+" tree printers", fname+" ("+pos+")")
+			x := newExec(c)
+			// rows printed through a row-printer interface with one implementation in the tree are followed into it
+			x.Hooks.Devirt = func(in *ssa.Function, site ssa.CallInstruction) *ssa.Function {
+				var only *ssa.Function
+				for _, cal := range calleesOf(c.P, in, site, c.P.CallGraph()) {
+					if only != nil || !c.P.InScope(cal) {
+						return nil
+					}
+					only = cal
 				}
+				return only
 			}
-			return d
-		}
-		x.Hooks.Decide = func(x *absint.Exec, s *absint.State, atom string, outs []string) {
-			if !strings.HasPrefix(atom, "ord(") || !strings.Contains(atom, "len(") {
-				modeName := fn.Params[len(fn.Params)-1].Name()
-				if strings.HasPrefix(atom, "b(§"+modeName) && len(outs) == 1 {
-					s.SetData("mode", outs[0])
+			var bad []string
+			seenCases := map[string]bool{}
+			modeEnum := modeEnumOf(c, fn.Params[len(fn.Params)-1].Type())
+			// the loop that walks the children is the one whose body prints
+			depthOf := func(x *absint.Exec, atom string) int {
+				// how many lookups deep is the list whose length the atom tests? 1 = the child, 2 = a grandchild
+				i := strings.Index(atom, "len(§@")
+				if i < 0 {
+					i = strings.Index(atom, "len(§j@")
 				}
-				// the mode as an enumeration made from the switch by one function of the package (newLastLevel(bool))
-				if modeEnum != nil && strings.HasPrefix(atom, "ord(") && strings.Contains(atom, "§"+modeName) && !strings.Contains(atom, "len(") {
-					for k, on := range modeEnum {
-						if !strings.Contains(atom, "c:"+k+",") && !strings.Contains(atom, "c:"+k+")") {
+				if i < 0 {
+					return 0
+				}
+				rest := atom[i+len("len(§"):]
+				end := strings.IndexAny(rest, "),")
+				if end < 0 {
+					return 0
+				}
+				loc := locOf(x, absint.Sym{Name: rest[:end]})
+				if !strings.HasSuffix(loc, "·Children") {
+					return 0
+				}
+				d := strings.Count(loc, "lookup(")
+				// nested load symbols hide inner lookups: resolve one level
+				if j := strings.Index(loc, "lookup(§@"); j >= 0 {
+					inner := loc[j+len("lookup(§"):]
+					if e := strings.IndexAny(inner, ",)"); e > 0 {
+						d += strings.Count(locOf(x, absint.Sym{Name: inner[:e]}), "lookup(")
+					}
+				}
+				return d
+			}
+			x.Hooks.Decide = func(x *absint.Exec, s *absint.State, atom string, outs []string) {
+				if !strings.HasPrefix(atom, "ord(") || !strings.Contains(atom, "len(") {
+					modeName := fn.Params[len(fn.Params)-1].Name()
+					if root != fn {
+						for _, rp := range root.Params {
+							if bt, ok := rp.Type().Underlying().(*types.Basic); ok && bt.Kind() == types.Bool {
+								modeName = rp.Name() // the switch lives in the function that supplies the label
+							}
+						}
+					}
+					if strings.HasPrefix(atom, "b(§"+modeName) && len(outs) == 1 {
+						s.SetData("mode", outs[0])
+					}
+					// the mode as an enumeration made from the switch by one function of the package (newLastLevel(bool))
+					if modeEnum != nil && strings.HasPrefix(atom, "ord(") && strings.Contains(atom, "§"+modeName) && !strings.Contains(atom, "len(") {
+						for k, on := range modeEnum {
+							if !strings.Contains(atom, "c:"+k+",") && !strings.Contains(atom, "c:"+k+")") {
+								continue
+							}
+							eq := len(outs) == 1 && outs[0] == "="
+							ne := len(outs) > 0 && !strings.Contains(strings.Join(outs, ""), "=")
+							switch {
+							case eq:
+								s.SetData("mode", map[bool]string{true: "T", false: "F"}[on])
+							case ne && len(modeEnum) == 2:
+								s.SetData("mode", map[bool]string{true: "F", false: "T"}[on])
+							}
+						}
+					}
+					return
+				}
+				d := depthOf(x, atom)
+				if os.Getenv("HRDEBUG") != "" {
+					loc := ""
+					if i := strings.Index(atom, "len(§"); i >= 0 {
+						r := atom[i+len("len(§"):]
+						if e := strings.IndexAny(r, "),"); e > 0 {
+							loc = locOf(x, absint.Sym{Name: r[:e]})
+						}
+					}
+					fmt.Fprintf(os.Stderr, "decide %s %v depth=%d loc=%s\n", atom, outs, d, loc)
+				}
+				if d == 0 {
+					if strings.Contains(atom, "§jump") && len(outs) > 0 {
+						s.SetData("jump", strings.Join(outs, ""))
+					}
+					return
+				}
+				key := "kids"
+				if d >= 2 {
+					key = "grand"
+				}
+				which := "0"
+				if strings.Contains(atom, "c:1,") || strings.Contains(atom, ",c:1)") {
+					which = "1"
+				}
+				// orientation: ord(c:k, len(X)) — "<" means k < len
+				s.SetData(key+which, strings.Join(outs, ""))
+			}
+			x.Hooks.Call = func(x *absint.Exec, s *absint.State, site ssa.CallInstruction, callee *ssa.Function, fnv absint.Value, args []absint.Value) (absint.Value, bool) {
+				pos := c.P.Pos(site.Pos())
+				switch {
+				case callee == fn && len(s.Frames) > 0 && s.Frames[len(s.Frames)-1].Fn != fn && func() bool {
+					for _, fr := range s.Frames {
+						if fr.Fn == fn {
+							return false
+						}
+					}
+					return true
+				}():
+					return nil, false // the call that enters the walker from the function that supplies the label
+				case callee == fn:
+					s.SetData("rec", "1")
+					// the depth the children are printed at is this node's depth plus one, for every child alike
+					deeper := false
+					for i, prm := range fn.Params {
+						bt, ok := prm.Type().Underlying().(*types.Basic)
+						if !ok || bt.Info()&types.IsInteger == 0 || i >= len(args) {
 							continue
 						}
-						eq := len(outs) == 1 && outs[0] == "="
-						ne := len(outs) > 0 && !strings.Contains(strings.Join(outs, ""), "=")
-						switch {
-						case eq:
-							s.SetData("mode", map[bool]string{true: "T", false: "F"}[on])
-						case ne && len(modeEnum) == 2:
-							s.SetData("mode", map[bool]string{true: "F", false: "T"}[on])
+						var self absint.Value = absint.Sym{Name: prm.Name()}
+						if pv, ok := s.Frames[len(s.Frames)-1].Env[prm]; ok && s.Frames[len(s.Frames)-1].Fn == fn {
+							self = pv // what this activation was given
+						}
+						one := absint.Const{V: constant.MakeInt64(1)}
+						switch args[i].Key() {
+						case self.Key():
+						case absint.NewTerm("+", self, one).Key(), absint.NewTerm("+", one, self).Key():
+							deeper = true
+						default:
+							bad = append(bad, fmt.Sprintf("%s: the children of a node are printed at depth %s, not at the node's own depth %s plus one: rows of the same level are indented differently and the report shows them under the wrong parent", pos, args[i].Key(), prm.Name()))
+							deeper = true
 						}
 					}
-				}
-				return
-			}
-			d := depthOf(x, atom)
-			if os.Getenv("HRDEBUG") != "" {
-				loc := ""
-				if i := strings.Index(atom, "len(§"); i >= 0 {
-					r := atom[i+len("len(§"):]
-					if e := strings.IndexAny(r, "),"); e > 0 {
-						loc = locOf(x, absint.Sym{Name: r[:e]})
+					if !deeper {
+						bad = append(bad, pos+": the children of a node are printed at the node's own depth: parent and child rows cannot be told apart")
 					}
-				}
-				fmt.Fprintf(os.Stderr, "decide %s %v depth=%d loc=%s\n", atom, outs, d, loc)
-			}
-			if d == 0 {
-				if strings.Contains(atom, "§jump") && len(outs) > 0 {
-					s.SetData("jump", strings.Join(outs, ""))
-				}
-				return
-			}
-			key := "kids"
-			if d >= 2 {
-				key = "grand"
-			}
-			which := "0"
-			if strings.Contains(atom, "c:1,") || strings.Contains(atom, ",c:1)") {
-				which = "1"
-			}
-			// orientation: ord(c:k, len(X)) — "<" means k < len
-			s.SetData(key+which, strings.Join(outs, ""))
-		}
-		x.Hooks.Call = func(x *absint.Exec, s *absint.State, site ssa.CallInstruction, callee *ssa.Function, fnv absint.Value, args []absint.Value) (absint.Value, bool) {
-			pos := c.P.Pos(site.Pos())
-			switch {
-			case callee == fn:
-				s.SetData("rec", "1")
-				// the depth the children are printed at is this node's depth plus one, for every child alike
-				deeper := false
-				for i, prm := range fn.Params {
-					bt, ok := prm.Type().Underlying().(*types.Basic)
-					if !ok || bt.Info()&types.IsInteger == 0 || i >= len(args) {
-						continue
+					return x.Fresh(s, "recerr"), true
+				case isMethod(callee, core.LibPath, "TreeNode", "Keys"):
+					return absint.Sym{Name: "keys"}, true
+				case firstChildOK && isMethod(callee, core.LibPath, "TreeNode", "FirstChild") && len(args) == 1:
+					// contract checked separately below: nil or one of the node's own children
+					if p, ok := args[0].(absint.Ptr); ok {
+						kids := x.Load(s, absint.Ptr{Loc: p.Loc + "·Children"}, nil)
+						return absint.NewTerm("lookup", kids, absint.NewTerm("index", absint.Sym{Name: "keys"}, absint.Const{V: constant.MakeInt64(0)})), true
 					}
-					self := absint.Sym{Name: prm.Name()}
-					one := absint.Const{V: constant.MakeInt64(1)}
-					switch args[i].Key() {
-					case self.Key():
-					case absint.NewTerm("+", self, one).Key(), absint.NewTerm("+", one, self).Key():
-						deeper = true
-					default:
-						bad = append(bad, fmt.Sprintf("%s: the children of a node are printed at depth %s, not at the node's own depth %s plus one: rows of the same level are indented differently and the report shows them under the wrong parent", pos, args[i].Key(), prm.Name()))
-						deeper = true
+					if t, ok := args[0].(*absint.Term); ok && t.Op == "lookup" {
+						kids := x.Load(s, absint.Ptr{Loc: "L:" + t.Key() + "·Children"}, nil)
+						return absint.NewTerm("lookup", kids, absint.NewTerm("index", absint.Sym{Name: "keys"}, absint.Const{V: constant.MakeInt64(0)})), true
 					}
-				}
-				if !deeper {
-					bad = append(bad, pos+": the children of a node are printed at the node's own depth: parent and child rows cannot be told apart")
-				}
-				return x.Fresh(s, "recerr"), true
-			case isMethod(callee, core.LibPath, "TreeNode", "Keys"):
-				return absint.Sym{Name: "keys"}, true
-			case firstChildOK && isMethod(callee, core.LibPath, "TreeNode", "FirstChild") && len(args) == 1:
-				// contract checked separately below: nil or one of the node's own children
-				if p, ok := args[0].(absint.Ptr); ok {
-					kids := x.Load(s, absint.Ptr{Loc: p.Loc + "·Children"}, nil)
-					return absint.NewTerm("lookup", kids, absint.NewTerm("index", absint.Sym{Name: "keys"}, absint.Const{V: constant.MakeInt64(0)})), true
-				}
-				if t, ok := args[0].(*absint.Term); ok && t.Op == "lookup" {
-					kids := x.Load(s, absint.Ptr{Loc: "L:" + t.Key() + "·Children"}, nil)
-					return absint.NewTerm("lookup", kids, absint.NewTerm("index", absint.Sym{Name: "keys"}, absint.Const{V: constant.MakeInt64(0)})), true
-				}
-			case callee != nil && core.FnPkgPath(callee) == balancePkg && callee != fn && callee.Signature.Results().Len() == 1 && isSliceType(callee.Signature.Results().At(0).Type()) && len(callee.Params) == 1:
-				// a helper that computes the joined path of a chain (getJump): opaque list
-				return x.Fresh(s, "jump"), true
-			case callee != nil && strings.HasPrefix(callee.String(), "fmt.Fprint"):
-				rows := s.Data["rows"]
-				if rows == "" {
-					s.SetData("rows", "1")
-				} else {
-					s.SetData("rows", "many")
-				}
-				// the amount printed must be the visited child's own Total
-				if len(args) > 0 {
-					if t, ok := args[len(args)-1].(*absint.Term); ok && t.Op == "slice" {
-						if p, ok := t.Args[0].(absint.Ptr); ok {
-							var first absint.Value
-							if hv, ok := s.Heap[p.Loc+"[c:0]"]; ok {
-								first = hv
-							}
-							// the indentation of the row is the depth this call was given, untouched
-							for i := 0; i < 6; i++ {
-								iv, ok := s.Heap[fmt.Sprintf("%s[c:%d]", p.Loc, i)].(*absint.Iface)
-								if !ok {
-									continue
+				case callee != nil && core.FnPkgPath(callee) == balancePkg && callee != fn && callee.Signature.Results().Len() == 1 && isSliceType(callee.Signature.Results().At(0).Type()) && len(callee.Params) == 1:
+					// a helper that computes the joined path of a chain (getJump): opaque list
+					return x.Fresh(s, "jump"), true
+				case callee != nil && strings.HasPrefix(callee.String(), "fmt.Fprint"):
+					rows := s.Data["rows"]
+					if rows == "" {
+						s.SetData("rows", "1")
+					} else {
+						s.SetData("rows", "many")
+					}
+					// the amount printed must be the visited child's own Total
+					if len(args) > 0 {
+						if t, ok := args[len(args)-1].(*absint.Term); ok && t.Op == "slice" {
+							if p, ok := t.Args[0].(absint.Ptr); ok {
+								var first absint.Value
+								if hv, ok := s.Heap[p.Loc+"[c:0]"]; ok {
+									first = hv
 								}
-								if rt, ok := iv.V.(*absint.Term); ok && rt.Op == "call:strings.Repeat" && len(rt.Args) == 2 {
-									isParam := false
-									for _, prm := range fn.Params {
-										if rt.Args[1].Key() == (absint.Sym{Name: prm.Name()}).Key() {
-											isParam = true
+								// the indentation of the row is the depth this call was given, untouched
+								for i := 0; i < 6; i++ {
+									iv, ok := s.Heap[fmt.Sprintf("%s[c:%d]", p.Loc, i)].(*absint.Iface)
+									if !ok {
+										continue
+									}
+									if rt, ok := iv.V.(*absint.Term); ok && rt.Op == "call:strings.Repeat" && len(rt.Args) == 2 {
+										isParam := false
+										for _, prm := range fn.Params {
+											if rt.Args[1].Key() == (absint.Sym{Name: prm.Name()}).Key() {
+												isParam = true
+											}
+											for _, fr := range s.Frames {
+												if pv, ok := fr.Env[prm]; ok && fr.Fn == fn && pv.Key() == rt.Args[1].Key() {
+													isParam = true
+												}
+											}
+										}
+										if !isParam {
+											bad = append(bad, fmt.Sprintf("%s: a row is indented by %s, not by the depth the traversal was called with: rows of one level get different indentations", pos, rt.Args[1].Key()))
 										}
 									}
-									if !isParam {
-										bad = append(bad, fmt.Sprintf("%s: a row is indented by %s, not by the depth the traversal was called with: rows of one level get different indentations", pos, rt.Args[1].Key()))
-									}
 								}
-							}
-							if iv, ok := first.(*absint.Iface); ok {
-								loc := locOf(x, iv.V)
-								if strings.HasSuffix(loc, "·Total") {
-									if lookupDepth(x, loc) == 1 {
-										s.SetData("total", "child")
-									} else {
-										s.SetData("wrongtotal", loc+" at "+pos)
+								if iv, ok := first.(*absint.Iface); ok {
+									loc := locOf(x, iv.V)
+									if strings.HasSuffix(loc, "·Total") {
+										if lookupDepth(x, loc) == 1 {
+											s.SetData("total", "child")
+										} else {
+											s.SetData("wrongtotal", loc+" at "+pos)
+										}
 									}
 								}
 							}
 						}
 					}
+					return nil, false
 				}
 				return nil, false
 			}
-			return nil, false
-		}
-		check := func(s *absint.State, where string) {
-			d := s.Data
-			if d["rows"] == "" && d["rec"] == "" {
-				if where == "backedge" {
-					bad = append(bad, "a child is passed over: no row is printed for it and its subtree is not visited ("+x.Valuation(s)+"): the branch, and everything below it, is missing from the report")
-				}
-				return
-			}
-			kids0, kids1 := d["kids0"], d["kids1"]               // outcomes of ord(0,len) and ord(1,len)
-			leaf := kids0 != "" && !strings.Contains(kids0, "<") // 0 >= len  ⇒ no children
-			single := kids1 == "="                               // len == 1
-			grandLeaf := d["grand0"] != "" && !strings.Contains(d["grand0"], "<")
-			caseKey := fmt.Sprintf("children=%s/%s grandchildren=%s mode=%s jump=%s → rows=%s rec=%s", kids0, kids1, d["grand0"], d["mode"], d["jump"], d["rows"], d["rec"])
-			seenCases[caseKey] = true
-			if d["rows"] != "1" {
-				bad = append(bad, fmt.Sprintf("a child is visited and %s rows are printed for it (%s)", map[string]string{"": "no", "many": "several"}[d["rows"]], caseKey))
-			}
-			if d["wrongtotal"] != "" {
-				bad = append(bad, "the amount printed for a child is not that child's own Total but "+d["wrongtotal"]+": quantities logged on the child itself disappear from the row")
-			}
-			if d["rec"] != "1" {
-				// subtree skipped: allowed for a leaf, for a joined chain (non-empty jump), or collapse-last on a single leaf grandchild
-				jumpNonEmpty := d["jump"] != "" && !strings.Contains(d["jump"], "=") && strings.Contains(d["jump"], "<") || d["jump"] == "<"
-				okSkip := leaf || jumpNonEmpty || (d["mode"] == "T" && single && grandLeaf)
-				if !okSkip {
-					if os.Getenv("HRDEBUG") != "" {
-						fmt.Fprintf(os.Stderr, "SKIP path=%v\n", s.Path)
+			check := func(s *absint.State, where string) {
+				d := s.Data
+				if d["rows"] == "" && d["rec"] == "" {
+					if where == "backedge" {
+						bad = append(bad, "a child is passed over: no row is printed for it and its subtree is not visited ("+x.Valuation(s)+"): the branch, and everything below it, is missing from the report")
 					}
-					bad = append(bad, fmt.Sprintf("the subtree of a child is skipped although it is not known to be a leaf, a single leaf grandchild under collapse-last, or a joined chain (%s): every branch below it is dropped from the report", caseKey))
+					return
+				}
+				kids0, kids1 := d["kids0"], d["kids1"]               // outcomes of ord(0,len) and ord(1,len)
+				leaf := kids0 != "" && !strings.Contains(kids0, "<") // 0 >= len  ⇒ no children
+				single := kids1 == "="                               // len == 1
+				grandLeaf := d["grand0"] != "" && !strings.Contains(d["grand0"], "<")
+				caseKey := fmt.Sprintf("children=%s/%s grandchildren=%s mode=%s jump=%s → rows=%s rec=%s", kids0, kids1, d["grand0"], d["mode"], d["jump"], d["rows"], d["rec"])
+				seenCases[caseKey] = true
+				if d["rows"] != "1" {
+					bad = append(bad, fmt.Sprintf("a child is visited and %s rows are printed for it (%s)", map[string]string{"": "no", "many": "several"}[d["rows"]], caseKey))
+				}
+				if d["wrongtotal"] != "" {
+					bad = append(bad, "the amount printed for a child is not that child's own Total but "+d["wrongtotal"]+": quantities logged on the child itself disappear from the row")
+				}
+				if d["rec"] != "1" {
+					// subtree skipped: allowed for a leaf, for a joined chain (non-empty jump), or collapse-last on a single leaf grandchild
+					jumpNonEmpty := d["jump"] != "" && !strings.Contains(d["jump"], "=") && strings.Contains(d["jump"], "<") || d["jump"] == "<"
+					okSkip := leaf || jumpNonEmpty || (d["mode"] == "T" && single && grandLeaf)
+					if !okSkip {
+						if os.Getenv("HRDEBUG") != "" {
+							fmt.Fprintf(os.Stderr, "SKIP path=%v\n", s.Path)
+						}
+						bad = append(bad, fmt.Sprintf("the subtree of a child is skipped although it is not known to be a leaf, a single leaf grandchild under collapse-last, or a joined chain (%s): every branch below it is dropped from the report", caseKey))
+					}
 				}
 			}
-		}
-		x.Hooks.BackEdge = func(x *absint.Exec, s *absint.State, f *absint.Frame, h *ssa.BasicBlock) {
-			if f.Fn != fn || len(s.Frames) != 1 {
-				return
+			x.Hooks.BackEdge = func(x *absint.Exec, s *absint.State, f *absint.Frame, h *ssa.BasicBlock) {
+				if f.Fn != fn || len(s.Frames) != wantFrames {
+					return
+				}
+				check(s, "backedge")
+				for _, k := range []string{"rows", "rec", "kids0", "kids1", "grand0", "grand1", "jump", "total", "wrongtotal"} {
+					s.SetData(k, "")
+				}
 			}
-			check(s, "backedge")
-			for _, k := range []string{"rows", "rec", "kids0", "kids1", "grand0", "grand1", "jump", "total", "wrongtotal"} {
-				s.SetData(k, "")
+			x.Run(x.NewState(root, nil, nil))
+			if !account(c, x, rule, root) {
+				continue
 			}
-		}
-		x.Run(x.NewState(fn, nil, nil))
-		if !account(c, x, rule, fn) {
-			continue
-		}
-		for k := range seenCases {
-			c.Valuations = append(c.Valuations, fname+": "+k)
-		}
-		bad = uniq(bad)
-		if len(bad) == 0 {
-			c.Discharge(rule, fname, "traversal", pos, fmt.Sprintf("one row per child with the child's own Total; a subtree is skipped only for a leaf, a joined chain, or collapse-last on a single leaf grandchild (%d cases)", len(seenCases)))
-		}
-		for _, m := range bad {
-			c.Violate(rule, fname, "traversal", pos, m, nil)
+			for k := range seenCases {
+				c.Valuations = append(c.Valuations, fname+": "+k)
+			}
+			bad = uniq(bad)
+			if len(bad) == 0 {
+				c.Discharge(rule, fname, "traversal", pos, fmt.Sprintf("one row per child with the child's own Total; a subtree is skipped only for a leaf, a joined chain, or collapse-last on a single leaf grandchild (%d cases)", len(seenCases)))
+			}
+			for _, m := range bad {
+				c.Violate(rule, fname, "traversal", pos, m, nil)
+			}
 		}
 	}
 	if n == 0 {
@@ -683,11 +823,11 @@ func keysOf(m map[string]bool) []string {
 func init() {
 	register(&Property{
 		ID:    "C03",
-		Rules: []string{"C03-R1", "C03-R2", "C03-R3", "C03-R5", "C03-R6", "C03-R7", "C03-R8", "C03-R9", "C03-R10", "C01-R4", "C01-R5", "C02-R5", "C07-R6", "C15-R13"},
+		Rules: []string{"C03-R1", "C03-R2", "C03-R3", "C03-R5", "C03-R6", "C03-R7", "C03-R8", "C03-R9", "C03-R10", "C03-R11", "C07-R9", "C01-R4", "C01-R5", "C02-R5", "C07-R6", "C15-R13"},
 		Explain: "Decides the structure that makes the balance tree conserve quantities: C03-R1 every range over TreeNode.Children is collect-then-sort on the name (siblings sorted, no order-dependent accumulation); " +
 			"C03-R2 chain collapsing propagates the empty 'forks below' sentinel; C03-R3 the single-element reporter expands like every other site and feeds tree and grand total in the same branches (C07-R1 restricted to balance); " +
 			"C03-R5 every printing traversal prints exactly one row per child with the child's own Total and skips a subtree only for a leaf, a joined chain, or collapse-last on a single leaf grandchild; " +
-			"C03-R6 TreeNode.Add links a new name and accumulates into an existing one; C03-R8 AddDeep gives every segment of the split name a node with the element's value, whatever the value or the segment; C03-R7 a printed grand total is a scalar Process feeds together with the tree; C03-R10 every row format of package balance is built from constants (a path is an argument, never part of the format); C03-R9 the balance reporter selector returns the element-filtering reporter exactly when a single element is requested, whatever the collapse switches; " +
+			"C03-R6 TreeNode.Add links a new name and accumulates into an existing one; C03-R8 AddDeep gives every segment of the split name a node with the element's value, whatever the value or the segment; C03-R7 a printed grand total is a scalar Process feeds together with the tree; C03-R10 every row format of package balance is built from constants (a path is an argument, never part of the format); C03-R9 the balance reporter selector returns the element-filtering reporter exactly when a single element is requested, whatever the collapse switches; C03-R11 the amount of a tree node is written only where the node is made and where Add accumulates into it (old + added), never recomputed, reset or adjusted; C07-R9 (shared) the element asked for with --single-element is only compared for equality; " +
 			"C01-R4/R5 and C02-R5 (shared) the resolved lists and the per-day food lists the balance sums over are merged by name, one slot per name, nothing dropped. Also: C03-R5 requires the depth handed to the children to be the node's own depth plus one and every row to be indented by the depth the call was given; display modes kept as an enumeration made from the switch by one function are mapped back to the switch; rows printed through a row-printer interface with one implementation are followed into it. Shared: C07-R6, C15-R13.",
 		NotDecided: "conservation itself (parent = own + children is a fact about float sums over all trees), equality of leaf sets between display modes, the prefix-of-another-name case",
 		Run: func(c *core.Ctx) {
@@ -705,6 +845,8 @@ func init() {
 			ruleGrandTotal(c, "C03-R7")
 			ruleConstFormats(c, "C03-R10", func(fn *ssa.Function) bool { return inPkgs(fn, balancePkg) })
 			ruleReporterSelection(c, "C03-R9", func(fn *ssa.Function) bool { return inPkgs(fn, balancePkg) })
+			ruleWhoWritesTotals(c, "C03-R11")
+			ruleExactElementMatch(c, "C07-R9")
 			// the single-element balance reads one amount per resolved element: the lists must be duplicate-free (C01's discipline),
 			// and a day's foods are merged by name before they reach any reporter
 			for _, r := range recursiveResolvers(c.P) {
@@ -774,6 +916,13 @@ func ruleAddDeep(c *core.Ctx, rule string) {
 				}
 			}
 			return absint.Const{}, true
+		case callee != nil && callee != fn && isDescendHelper(c, callee) && len(args) == 3:
+			// parent.descend(name, amount): get-or-create with the amount added, checked on its own
+			s.SetData("added", "1")
+			if !strings.Contains(args[2].Key(), `"Value"`) && !strings.HasSuffix(locOf(x, args[2]), "·Value") {
+				bad = append(bad, "a segment's node receives "+args[2].Key()+", not the element's value")
+			}
+			return x.Fresh(s, "child"), true
 		case isMethod(callee, core.LibPath, "TreeNode", "Add") && len(args) == 2:
 			s.SetData("added", "1")
 			// the node added carries the element's own value
@@ -795,7 +944,16 @@ func ruleAddDeep(c *core.Ctx, rule string) {
 	}
 	x.Hooks.BackEdge = func(x *absint.Exec, s *absint.State, f *absint.Frame, h *ssa.BasicBlock) {
 		if f.Fn != fn {
-			return
+			// the walk may live in a helper that is handed the segments (AddPath(strings.Split(name, sep), value))
+			handed := false
+			for _, prm := range f.Fn.Params {
+				if pv, ok := f.Env[prm]; ok && absint.Mentions(pv, "segments") {
+					handed = true
+				}
+			}
+			if !handed {
+				return
+			}
 		}
 		iterations++
 		if s.Data["added"] != "1" {
@@ -822,4 +980,158 @@ func ruleAddDeep(c *core.Ctx, rule string) {
 	for _, m := range bad {
 		c.Violate(rule, fname, "every-segment", c.P.Pos(fn.Pos()), m, nil)
 	}
+}
+
+var descendHelperMemo = map[*ssa.Function]bool{}
+
+// isDescendHelper: a method of TreeNode taking (name string, amount float64) and returning *TreeNode that adds the
+// amount to the child of that name when there is one and otherwise links a new child made with that name and
+// amount — what Add(NewTreeNode(name, amount)) does.
+func isDescendHelper(c *core.Ctx, fn *ssa.Function) bool {
+	if v, ok := descendHelperMemo[fn]; ok {
+		return v
+	}
+	descendHelperMemo[fn] = false
+	if fn.Signature.Recv() == nil || core.FnPkgPath(fn) != core.LibPath || len(fn.Params) != 3 || fn.Signature.Results().Len() != 1 || len(fn.Blocks) == 0 {
+		return false
+	}
+	if !strings.HasSuffix(fn.Params[0].Type().String(), ".TreeNode") || !strings.HasSuffix(fn.Signature.Results().At(0).Type().String(), ".TreeNode") {
+		return false
+	}
+	if b, ok := fn.Params[1].Type().Underlying().(*types.Basic); !ok || b.Info()&types.IsString == 0 {
+		return false
+	}
+	if b, ok := fn.Params[2].Type().Underlying().(*types.Basic); !ok || b.Info()&types.IsFloat == 0 {
+		return false
+	}
+	nameKey := absint.Sym{Name: fn.Params[1].Name()}.Key()
+	amtKey := absint.Sym{Name: fn.Params[2].Name()}.Key()
+	x := newExec(c)
+	x.Hooks.Store = func(x *absint.Exec, s *absint.State, in *ssa.Store, addr, val absint.Value) {
+		p, ok := addr.(absint.Ptr)
+		if !ok || !strings.HasSuffix(p.Loc, "·Total") || p.Fresh || strings.HasPrefix(p.Loc, "A:") {
+			return
+		}
+		if t, ok := val.(*absint.Term); ok && t.Op == "+" && len(t.Args) == 2 && (t.Args[0].Key() == amtKey || t.Args[1].Key() == amtKey) && strings.Contains(p.Loc, "lookup(") {
+			s.SetData("acc", "1")
+		} else {
+			s.SetData("odd", "1")
+		}
+	}
+	x.Hooks.MapUpdate = func(x *absint.Exec, s *absint.State, in *ssa.MapUpdate, m, k, v absint.Value) {
+		vp, ok := v.(absint.Ptr)
+		if !ok || k.Key() != nameKey {
+			s.SetData("odd", "1")
+			return
+		}
+		tot := x.Load(s, absint.Ptr{Loc: vp.Loc + "·Total", Fresh: true}, nil)
+		nm := x.Load(s, absint.Ptr{Loc: vp.Loc + "·Name", Fresh: true}, nil)
+		if tot.Key() == amtKey && nm.Key() == nameKey {
+			s.SetData("linked", "1")
+		} else {
+			s.SetData("odd", "1")
+		}
+	}
+	terms := x.Run(x.NewState(fn, nil, nil))
+	if len(x.Problems) > 0 || x.Exhausted {
+		return false
+	}
+	acc, linked := 0, 0
+	for _, tm := range terms {
+		d := tm.State.Data
+		if tm.Kind != "return" || d["odd"] == "1" || (d["acc"] == "1") == (d["linked"] == "1") {
+			return false
+		}
+		if d["acc"] == "1" {
+			acc++
+		} else {
+			linked++
+		}
+	}
+	descendHelperMemo[fn] = acc > 0 && linked > 0
+	return descendHelperMemo[fn]
+}
+
+// ruleWhoWritesTotals is C03-R11: the amount of a tree node is written in two places only — where the node is made
+// and where TreeNode.Add accumulates into an existing node (one += of the added node's amount). Any other write
+// (a total recomputed from the children, reset, rounded, scaled) makes a category differ from the sum of the
+// quantities logged under it: a food that is logged under a name that is also a prefix of other names has an amount
+// of its own, which a rebuilt total loses.
+func ruleWhoWritesTotals(c *core.Ctx, rule string) {
+	tnT := c.P.LookupType(core.LibPath, "TreeNode")
+	if !requireAnchor(c, rule, "lib.TreeNode", tnT != nil) {
+		return
+	}
+	n, bad := 0, 0
+	for _, fn := range c.P.Funcs {
+		for _, b := range fn.Blocks {
+			for _, in := range b.Instrs {
+				st, ok := in.(*ssa.Store)
+				if !ok {
+					continue
+				}
+				fa, ok := st.Addr.(*ssa.FieldAddr)
+				if !ok || fieldName(fa.X.Type(), fa.Field) != "Total" {
+					continue
+				}
+				pt, ok := fa.X.Type().Underlying().(*types.Pointer)
+				if !ok || !types.Identical(pt.Elem(), tnT) {
+					continue
+				}
+				n++
+				fname := core.FuncName(fn)
+				pos := c.P.Pos(st.Pos())
+				c.Universe(rule+" writes of a node's amount", fname+" ("+pos+")")
+				// a node being made: the structure is a fresh allocation
+				if _, fresh := fa.X.(*ssa.Alloc); fresh {
+					c.Discharge(rule, fname, "total", pos, "the amount of a node that is being made")
+					continue
+				}
+				// old + something, in TreeNode.Add
+				if bo, ok := st.Val.(*ssa.BinOp); ok && bo.Op == token.ADD && core.FnPkgPath(fn) == core.LibPath {
+					if ld, ok := bo.X.(*ssa.UnOp); ok && ld.Op == token.MUL && sameExpr(ld.X, fa, 0) {
+						c.Discharge(rule, fname, "total", pos, "accumulates into the existing node: old amount + what is added")
+						continue
+					}
+				}
+				bad++
+				c.Violate(rule, fname, "total", pos, "the amount of a tree node is written outside node creation and TreeNode.Add's accumulation: a total that is recomputed, reset or adjusted no longer is the sum of the quantities logged under that path (a category that was also logged under its own name loses that amount)", nil)
+			}
+		}
+	}
+	if n == 0 {
+		c.Undecide(rule, "tree", "universe", "-", "no write of TreeNode.Total found: the balance tree must accumulate somewhere", nil)
+	}
+}
+
+// sameExpr: a and b are the same expression written twice (no common-subexpression elimination in go/ssa): the same
+// value, or the same operation on operands that are the same expression in turn.
+func sameExpr(a, b ssa.Value, depth int) bool {
+	if a == b {
+		return true
+	}
+	if depth > 5 || a == nil || b == nil {
+		return false
+	}
+	switch x := a.(type) {
+	case *ssa.FieldAddr:
+		y, ok := b.(*ssa.FieldAddr)
+		return ok && x.Field == y.Field && sameExpr(x.X, y.X, depth+1)
+	case *ssa.Field:
+		y, ok := b.(*ssa.Field)
+		return ok && x.Field == y.Field && sameExpr(x.X, y.X, depth+1)
+	case *ssa.IndexAddr:
+		y, ok := b.(*ssa.IndexAddr)
+		return ok && sameExpr(x.X, y.X, depth+1) && sameExpr(x.Index, y.Index, depth+1)
+	case *ssa.Lookup:
+		y, ok := b.(*ssa.Lookup)
+		return ok && !x.CommaOk && !y.CommaOk && sameExpr(x.X, y.X, depth+1) && sameExpr(x.Index, y.Index, depth+1)
+	case *ssa.UnOp:
+		y, ok := b.(*ssa.UnOp)
+		return ok && x.Op == y.Op && x.Op == token.MUL && sameExpr(x.X, y.X, depth+1)
+	case *ssa.Const:
+		y, ok := b.(*ssa.Const)
+		return ok && x.Value != nil && y.Value != nil && x.Value.ExactString() == y.Value.ExactString()
+	}
+	return false
 }
